@@ -490,6 +490,14 @@ func (ck *checker) checkRun(er *execResult) {
 					r.Violate("C04", "charge", "host-call-charge-"+hostName[c.op], "%s: gas %d -> %d, the specified charge leaves %d", where, c.gasBefore, c.gasAfter, want)
 				}
 			}
+			// a host call that is entered with its charge of 10 or more ends out-of-gas only through a transfer's own gas limit
+			if c.gasBefore >= 10 && c.exit.GetReasonType() == PVM.OUT_OF_GAS && !(c.op == hTransfer && c.regsIn[9] > uint64(c.gasBefore-10)) {
+				r.Violate("C04", "oog", "host-call-out-of-gas-with-enough-gas", "%s: entered with %d gas (the charge is 10) and ended out-of-gas", where, c.gasBefore)
+			}
+			// a host call that cannot be paid has no effect: neither on the live context nor on the checkpoint copy
+			if c.gasBefore < 10 && (c.x.full() != prev.full() || c.y.full() != cp.full()) {
+				r.Violate("C04", "oog", "unpaid-host-call-took-effect-"+hostName[c.op], "%s: only %d gas left (the charge is 10), yet the call changed the accumulation context or its checkpoint copy", where, c.gasBefore)
+			}
 			if c.gasBefore < 10 && c.exit.GetReasonType() != PVM.OUT_OF_GAS {
 				r.Violate("C04", "oog", "host-call-ran-without-gas", "%s: only %d gas left, the call must end out-of-gas", where, c.gasBefore)
 			}
@@ -500,6 +508,14 @@ func (ck *checker) checkRun(er *execResult) {
 			// those of the checkpoint; a call that carries on lets everything after the checkpoint survive
 			if cont && c.op == hTransfer && c.r7 == PVM.OK && c.gasBefore >= 10 && c.regsIn[9] > uint64(c.gasBefore-10) {
 				r.Violate("C10", "abort-not-taken", "out-of-gas-on-transfer-gas-limit-not-taken", "%s: the transfer's gas limit %d exceeds the %d gas left, the invocation is out of gas and must fall back to the checkpoint; it carried on", where, c.regsIn[9], c.gasBefore-10)
+			}
+			// a checkpoint entered with exactly its charge is paid for: it is taken (and the invocation runs out of gas
+			// afterwards); one that cannot be paid must leave the earlier checkpoint in place
+			if c.op == hCheckpoint && !cont && c.gasBefore >= 10 && c.exit.GetReasonType() == PVM.OUT_OF_GAS {
+				r.Violate("C10", "checkpoint", "paid-checkpoint-not-taken", "%s: the checkpoint call was entered with %d gas (its charge is 10) but ended out-of-gas: the checkpoint it paid for is lost", where, c.gasBefore)
+			}
+			if c.op == hCheckpoint && !cont && c.gasBefore < 10 && c.y.full() != cp.full() {
+				r.Violate("C10", "checkpoint", "unpaid-checkpoint-taken", "%s: the checkpoint call could not be paid (%d gas) but the checkpoint copy changed:\n now  %s\n was  %s", where, c.gasBefore, c.y.full(), cp.full())
 			}
 			if c.op == hCheckpoint && cont {
 				if c.y.full() != c.x.full() {
